@@ -12,7 +12,7 @@ import fam_plm
 class Unit:
     def __init__(self, name, fam, target, props, inline=(), stubs=(), assumed=(), decls=(), lemmas=(), macros=(), insts=(), mode='P',
                  unwind=None, solver='minisat', timeout=600, mem_gb=8, thorough_insts=(), notes='', object_bits=12, harness=None,
-                 frame_ghost_only=False, extra_flags=(), canary=True, spec=('pgm.spec',), cases=None, assumptions=(), partition=0, defines=(), drop_checks=()):
+                 frame_ghost_only=False, extra_flags=(), canary=True, spec=('pgm.spec',), cases=None, assumptions=(), partition=0, defines=(), drop_checks=(), extract_from=None, target_sig=None, attach=()):
         self.name, self.fam, self.target, self.props = name, fam, target, list(props)
         self.inline, self.stubs, self.assumed = list(inline), list(stubs), list(assumed)
         self.decls, self.lemmas, self.macros = list(decls), list(lemmas), list(macros)
@@ -28,6 +28,7 @@ class Unit:
         self.partition = partition
         self.defines = list(defines)
         self.drop_checks = list(drop_checks)
+        self.extract_from, self.target_sig, self.attach = extract_from, target_sig, list(attach)
 
 
 def kinst(k, floating='float'):
@@ -109,7 +110,7 @@ for fn, extra in (('lower_bound', []), ('contains', []), ('upper_bound', []), ('
     U('mapped_' + fn, fam_mapped, 'Mapped_' + fn, ['C11', 'C16', 'C17'], inline=['Mapped_begin', 'Mapped_size', 'Mapped_end'],
       stubs=(['Mapped_lower_bound', 'Mapped_upper_bound'] if fn == 'count' else []), assumed=['Mapped_search'],
       decls=['mapped_ghost', 'std_bounds_K'], lemmas=MAPPED_LEM, insts=MAPPED_Q, thorough_insts=MAPPED_ALL, spec=('mapped.spec',),
-      frame_ghost_only=True, assumptions=[SEARCH_NOTE], timeout=1200, partition=(16 if fn == 'upper_bound' else 8 if fn == 'count' else 0), mem_gb=12)
+      frame_ghost_only=True, assumptions=[SEARCH_NOTE], timeout=1200, partition=(16 if fn == 'upper_bound' else 0), mem_gb=12)
 
 
 # ---------------------------------------------------------------------------------------------------
@@ -182,3 +183,15 @@ U('oplm_reset', fam_plm, 'OPLM_reset', ['C03', 'C17'], decls=['plm_ghost'], inst
 U('dyn_item_ctor', fam_dyn, 'Item_ctor', ['C20', 'C17'], decls=['dyn_ghost'], insts=DYN_Q, thorough_insts=DYN_ALL, spec=('dyn.spec',), assumptions=[DYN_NOTE])
 U('dyn_ctor', fam_dyn, 'Dyn_ctor', ['C20', 'C15', 'C17'], inline=['Dyn_ceil_log2', 'Dyn_ceil_log_base', 'Dyn_max_size', 'Dyn_level', 'Dyn_max_fully_allocated_level'],
   decls=['dyn_ghost'], insts=DYN_Q, spec=('dyn.spec',), timeout=1200, assumptions=[DYN_NOTE, 'buffer_level <= 4 (larger values overflow max_size by design of the class)'])
+
+
+# ---------------------------------------------------------------------------------------------------
+# make_segmentation: FEED contract
+FEED_NOTE = 'OPLM control contract (first point accepted, refusal closes the segment, acceptance counted) is assumed here; it is the contract written for add_point in spec/plm.spec'
+PLM_K = [fam_plm.pinst('uint64_t'), fam_plm.pinst('int64_t')]
+U('ms_add_point', fam_plm, 'make_segmentation__add_point', ['C03', 'C02', 'C17'], extract_from='make_segmentation',
+  target_sig='void make_segmentation__add_point(size_t *c, OPLM *opt, X x, size_t y)', assumed=['OPLM_add_point', 'OPLM_get_segment', 'ms_out', 'OPLM_ctor'],
+  decls=['plm_ghost', 'feed_ghost', 'feed_ghost2'], insts=PLM_K[:1], spec=('plm.spec',), assumptions=[FEED_NOTE])
+U('make_segmentation', fam_plm, 'make_segmentation', ['C02', 'C03', 'C17'], attach=['make_segmentation__add_point'], assumed=['OPLM_ctor', 'OPLM_get_segment', 'ms_out', 'OPLM_add_point'],
+  decls=['plm_ghost', 'feed_ghost', 'feed_ghost2'], lemmas=['lemma_in_sorted'], insts=PLM_K[:1], thorough_insts=PLM_K, spec=('plm.spec',), timeout=1800, partition=24, mem_gb=10,
+  assumptions=[FEED_NOTE, 'integer keys (the floating-point branch with nextafter is compiled but dead for the instantiated key types)'])
